@@ -3,7 +3,9 @@ package props
 import (
 	"bufio"
 	"bytes"
+	"encoding/binary"
 	"encoding/json"
+	"errors"
 	"fmt"
 	structform "github.com/elastic/go-structform"
 	"os"
@@ -573,6 +575,57 @@ func c06Valid(c *run.C) {
 	}
 }
 
+// c06HugeCounts: counts of 2^31 and more are valid for containers whose
+// elements need no bytes ([$Z#L<n>: n nulls in 13 bytes).  Nobody can wait for
+// 2^31 events; the visitor stops after a few and the events until then are
+// checked: the container start announcing n and elements of the right kind.
+func c06HugeCounts(c *run.C) {
+	counts := []uint64{1<<31 - 1, 1 << 31, 1<<31 + 1, 1<<32 - 1, 1 << 32, 1 << 40, 1<<62 + 5, 1<<63 - 1}
+	n := counts[c.Idx%len(counts)]
+	typ := []byte{'Z', 'T', 'F'}[(c.Idx/len(counts))%3]
+	obj := (c.Idx/(3*len(counts)))%2 == 1
+	if obj {
+		return // a typed object needs key bytes per member: never complete
+	}
+	doc := []byte{'[', '$', typ, '#', 'L'}
+	doc = binary.BigEndian.AppendUint64(doc, n)
+	entry := (c.Idx / (6 * len(counts))) % 3
+	c.Begin(refCase{Codec: "ubjson", Doc: hexs(doc), How: fmt.Sprintf("huge count, entry %d", entry)})
+	m := mon.NewMonitor()
+	m.Fail, m.FailErr = 40, mon.ErrVisitor
+	var err error
+	if !c.Guard("ubjson.huge-count", func() {
+		switch entry {
+		case 0:
+			err = codec.UBJSON.Parse(exactCopy(doc), m.WithRefs())
+		case 1:
+			err = codec.UBJSON.NewBytesDecoder(exactCopy(doc), m.WithRefs()).Next()
+		default:
+			err = codec.UBJSON.NewDecoder(&mon.ChunkReader{Data: doc, Sizes: []int{c.R.Range(1, 5)}}, 16, m.WithRefs()).Next()
+		}
+	}) {
+		return
+	}
+	if !errors.Is(err, mon.ErrVisitor) {
+		c.Violationf("rejected-valid", "ubjson:huge-count-refused", "ubjson parser does not deliver a valid container of %d zero-width elements: it returned %v after %d events (expected: events until the visitor stops it)\ndoc=%s", n, err, m.NEvents, hexs(doc))
+		return
+	}
+	ev := m.Events
+	if len(ev) < 2 || ev[0].K != val.EArrStart || uint64(ev[0].N) != n {
+		c.Violationf("mismatch", "ubjson:huge-count-start", "container of %d elements announced as %v\ndoc=%s", n, ev, hexs(doc))
+		return
+	}
+	for _, e := range ev[1:] {
+		okKind := (typ == 'Z' && e.K == val.ENil) || (typ == 'T' && e.K == val.EBool && e.B) || (typ == 'F' && e.K == val.EBool && !e.B)
+		if !okKind {
+			c.Violationf("mismatch", "ubjson:huge-count-element", "element %v in a container of type %c\ndoc=%s", e, typ, hexs(doc))
+			return
+		}
+	}
+	c.Observe("huge_counts_delivered", 1)
+	c.Nontrivial(gen.Mix(66, uint64(c.Idx)))
+}
+
 // directed: optimized containers followed by siblings that must decode with
 // their own markers; every length marker for every small length.
 func c06Directed(c *run.C) {
@@ -700,6 +753,7 @@ func init() {
 		Suites: []*run.Suite{
 			{Name: "valid", N: tierN(150000, 6000000), Case: c06Valid, Require: []string{"values_equal_to_reference", "feature_typed", "feature_counted", "feature_typed-container-of-containers", "feature_highprec", "feature_char", "feature_noop-in-container", "feature_noop-in-counted", "feature_noop-in-object", "feature_noop-before-key"}},
 			{Name: "directed", N: tierN(6000, 60000), Case: c06Directed, Require: []string{"values_equal_to_reference"}},
+			{Name: "huge-counts", N: tierN(8*3*2*3, 8*3*2*3), Case: c06HugeCounts, Require: []string{"huge_counts_delivered"}},
 		},
 	})
 }
